@@ -101,7 +101,6 @@ type reader struct {
 	pauseSeen  []int64 // stamps of the server's OnPause handler, one per PAUSE
 
 	prevSent [][]uint64 // writer goroutine only
-	accCount atomic.Int64
 
 	// racy mode
 	steps []*planItem
@@ -142,17 +141,18 @@ type harness struct {
 	pwid     []int // stage-2 write j carries the payload of publisher write pwid[j] (identity without relay)
 
 	// relay (second direction): publisher → server session → stream
-	pub         *gortsplib.Client
-	pubDesc     *description.Session
-	pubOut      []byte // per publisher write: 'a' accepted, 'f' queue full, 'e' other error
-	pubStamp    []int64
-	pubMedia    map[*description.Media]int
-	relayMu     sync.Mutex
-	relayRecs   []rec  // what the server session's callback saw
-	relayArr    []aobs // UDP: datagrams the server's RTP socket read from the publisher
-	pkPub       []pktMeta
-	fpNoMedia   map[[3]uint32]int
-	pubRecorded atomic.Bool
+	pub       *gortsplib.Client
+	pubDesc   *description.Session
+	pubOut    []byte // per publisher write: 'a' accepted, 'f' queue full, 'e' other error
+	pubStamp  []int64
+	pubMedia  map[*description.Media]int
+	relayMu   sync.Mutex
+	relayRecs []rec  // what the server session's callback saw
+	relayArr  []aobs // UDP: datagrams the server's RTP socket read from the publisher
+	pkPub     []pktMeta
+	fpNoMedia map[[3]uint32]int
+	pubSess   *gortsplib.ServerSession
+	pubClosed chan struct{}
 }
 
 func (h *harness) note(f string, a ...any) {
@@ -209,6 +209,9 @@ func (h *harness) OnAnnounce(_ *gortsplib.ServerHandlerOnAnnounceCtx) (*base.Res
 
 // OnRecord: the second direction - every packet the session receives is re-written to the stream.
 func (h *harness) OnRecord(ctx *gortsplib.ServerHandlerOnRecordCtx) (*base.Response, error) {
+	h.mu.Lock()
+	h.pubSess = ctx.Session
+	h.mu.Unlock()
 	ad := ctx.Session.AnnouncedDescription()
 	idx := map[*description.Media]int{}
 	for i, m := range ad.Medias {
@@ -240,7 +243,12 @@ func (h *harness) OnPause(ctx *gortsplib.ServerHandlerOnPauseCtx) (*base.Respons
 func (h *harness) OnSessionClose(ctx *gortsplib.ServerHandlerOnSessionCloseCtx) {
 	h.mu.Lock()
 	rd := h.sessRdr[ctx.Session]
+	isPub := h.pubSess != nil && ctx.Session == h.pubSess
 	h.mu.Unlock()
+	if isPub {
+		close(h.pubClosed)
+		return
+	}
 	if rd != nil && rd.closedAt.CompareAndSwap(0, h.clock.Add(1)) {
 		rd.mu.Lock()
 		if ctx.Error != nil {
@@ -281,6 +289,7 @@ func (h *harness) start() error {
 	sc := h.sc
 	h.ns = newNetState(&h.clock)
 	h.sessRdr = map[*gortsplib.ServerSession]*reader{}
+	h.pubClosed = make(chan struct{})
 	for m, pts := range sc.Medias {
 		var fs []format.Format
 		for _, pt := range pts {
@@ -798,8 +807,6 @@ func (h *harness) streamWrite(pubWid int, p pktMeta, pkt *rtp.Packet) {
 				w.fan[i] = 'a'
 				if h.curErr[i] == 'f' {
 					w.fan[i] = 'f'
-				} else {
-					rd.accCount.Add(1)
 				}
 			}
 		}
@@ -1041,6 +1048,16 @@ func (h *harness) run() error {
 	h.schedule(h.sc.N, true)
 	wg.Wait()
 	h.tWrite = time.Since(t0)
+	if h.pub != nil {
+		// the publisher goes first: no relay callback may run while the readers' sessions close (see pipe.go)
+		h.pub.Close()
+		h.pub = nil
+		select {
+		case <-h.pubClosed:
+		case <-time.After(10 * time.Second):
+			h.note("publisher session: no OnSessionClose within 10 s")
+		}
+	}
 	for _, rd := range h.readers {
 		rd.gate.open()
 	}
